@@ -202,7 +202,7 @@ def setup(ctx):
         req += [f + ":consistency", f + ":mirror"]
     for f in ("sw-hll", "euler-hlle", "euler-hllc", "euler2d-hlle"):
         req.append(f + ":upwind")
-    ctx.require(*req, "scalar-calls")
+    ctx.require(*req, "scalar-calls", "integer-typed")
 
 
 def teardown(ctx):
@@ -327,6 +327,51 @@ def pairs_euler2d(ctx, rng, idx):
     gen.maybe_decoy(rng, 0.5)
     model.numflux(flux, [rL, VL, pL], [rR, VR, pR], nrm)
     ctx.nontrivial("euler2d", flux, gam, rL[:4], VL[:, :4])
+
+
+@group(quick=150, thorough=6000)
+def pairs_integer(ctx, rng, idx):
+    """integer-typed states (a user typing 1 for 1.; the density of an integer-typed field stays an integer array through
+    cons2prim): every flux of every model, judged by the same monitors, and equal to the same call with floats"""
+    k = idx % 5
+    n = 60
+    it = np.int64 if rng.random() < 0.7 else np.int32
+    mixed = bool(rng.random() < 0.5)        # only the first variable integer-typed (what an integer-typed field gives) or all of them
+    I = lambda lo, hi, shape=n: rng.integers(lo, hi + 1, shape).astype(it)
+    F_ = lambda a: a if not mixed else a.astype(float)
+    nrm = None
+    if k == 0:
+        model = conv.model(int(rng.choice([-2, -1, 1, 3]))); flux = None
+        L, R = [I(-4, 4)], [I(-4, 4)]
+    elif k == 1:
+        model = burgers.model(); flux = None
+        L, R = [I(-4, 4)], [I(-4, 4)]
+    elif k == 2:
+        model = shw.shallowwater1d(g=float(rng.choice([9.81, 1.0]))); flux = ["centered", "rusanov", "hll", None][(idx // 5) % 4]
+        L, R = [I(1, 5), F_(I(-12, 12))], [I(1, 5), F_(I(-12, 12))]
+    elif k == 3:
+        model = euler.euler1d(gamma=float(rng.choice([1.4, 5 / 3]))); flux = ["centered", "centeredmassflow", "hlle", "hllc", None][(idx // 5) % 5]
+        L, R = [I(1, 5), F_(I(-4, 4)), F_(I(1, 6))], [I(1, 5), F_(I(-4, 4)), F_(I(1, 6))]
+    else:
+        model = euler.euler2d(gamma=float(rng.choice([1.4, 5 / 3]))); flux = ["centered", "hlle", "centeredflux"][(idx // 5) % 3]     # (2D hllc is not implemented: TypeError, DESIGN 3/C02)
+        L, R = [I(1, 5), F_(I(-4, 4, (2, n))), F_(I(1, 6))], [I(1, 5), F_(I(-4, 4, (2, n))), F_(I(1, 6))]
+        dirx = rng.random(n) < 0.5
+        nrm = np.zeros((2, n), dtype=np.int8); nrm[0, dirx] = 1; nrm[1, ~dirx] = 1
+    q = n // 4
+    for a, b in zip(L, R):
+        b[..., :q] = a[..., :q]            # equal states (consistency)
+    ctx.describe(model=type(model).__name__, flux=flux, integer_typed="first variable" if mixed else "all", L=[x[..., :4] for x in L], R=[x[..., :4] for x in R])
+    ctx.ev("integer-typed")
+    extra = () if nrm is None else (nrm,)
+    got = model.numflux(flux, [x.copy() for x in L], [x.copy() for x in R], *extra)
+    ref = model.numflux(flux, [x.astype(float) for x in L], [x.astype(float) for x in R], *extra)
+    for i, (a, b) in enumerate(zip(got, ref)):
+        a, b = np.broadcast_arrays(np.asarray(a, float), np.asarray(b, float))
+        ok = np.isfinite(b)
+        sc = np.max(np.abs(b[ok])) + 1e-300 if np.any(ok) else 1.0
+        ctx.close("integer-typed", float(np.max(np.abs(a - b)[ok]) / sc) if np.any(ok) else 0.0, 1e-13, "integer-typed/%s-%s/differs-from-the-same-call-with-floats" % (type(model).__name__, flux), {"equation": i}, cls="integer-typed")
+        ctx.true("integer-typed", np.array_equal(np.isfinite(a), ok), "integer-typed/%s-%s/finite-pattern-differs" % (type(model).__name__, flux), {"equation": i}, cls="integer-typed")
+    ctx.nontrivial("int", k, flux, mixed, [x[..., :3] for x in L])
 
 
 @group(quick=300, thorough=10000)
